@@ -162,6 +162,8 @@ type planAction struct {
 	unk     bool
 	garbage int  // > 0: answer with corruption variant #garbage of the valid response, then close (C08 upstream side)
 	goaway  bool // answer, then announce that this connection goes away (bolt go-away frame / HTTP/2 GOAWAY / Connection: close) and close it
+	gaKeep  bool // bolt: announce go-away but leave closing the connection to the peer (requests in flight are still answered)
+	gaFirst bool // bolt: the go-away frame is written BEFORE the reply (and the connection is left open)
 	bodyLen int
 }
 
@@ -175,6 +177,10 @@ func parsePlan(ops []string) planAction {
 			a.final = op
 		case op == "goaway":
 			a.goaway = true
+		case op == "goawayk":
+			a.goaway, a.gaKeep = true, true
+		case op == "goawayf":
+			a.goaway, a.gaKeep, a.gaFirst = true, true, true
 		case op == "dup":
 			a.dup = true
 		case op == "unk":
@@ -228,6 +234,7 @@ type upstream struct {
 	// closeNext > 0: the next accepted connections are closed at once, before a byte is read (an upstream that dies between
 	// accept and service, or a load balancer that resets fresh connections)
 	closeNext int32
+	closedIDs sync.Map // connection id -> true once its serving goroutine has ended
 }
 
 func startUpstream(log *evLog, name, proto string) (*upstream, error) {
@@ -270,6 +277,7 @@ func (u *upstream) acceptLoop() {
 				u.log.mu.Lock()
 				u.log.closes[u.Name]++
 				u.log.mu.Unlock()
+				u.closedIDs.Store(id, true)
 			}()
 			switch u.Proto {
 			case "Http1":
@@ -527,13 +535,18 @@ func (u *upstream) serveBolt(c net.Conn, id int64) {
 					c.Close()
 					return
 				}
+				if a.goaway && a.gaFirst {
+					_, _ = c.Write(buildBolt(boltFields{V2: f.V2, Ver1: f.Ver1, CmdType: 1, CmdCode: 100, Ver: f.Ver, ID: 0, Codec: f.Codec}))
+				}
 				_, _ = c.Write(resp)
 				if a.dup {
 					_, _ = c.Write(resp)
 				}
-				if a.goaway {
+				if a.goaway && !a.gaFirst {
 					// a go-away frame (command code 100, as MOSN's bolt codec builds it), the connection is closed a little later
 					_, _ = c.Write(buildBolt(boltFields{V2: f.V2, Ver1: f.Ver1, CmdType: 1, CmdCode: 100, Ver: f.Ver, ID: 0, Codec: f.Codec}))
+				}
+				if a.goaway && !a.gaKeep {
 					go func() {
 						time.Sleep(150 * time.Millisecond)
 						c.Close()
@@ -1021,6 +1034,12 @@ func establishedTo(port int) int {
 		}
 	}
 	return n
+}
+
+// connClosed: the upstream's serving goroutine of connection #id has ended (the peer closed it, or the upstream did)
+func (u *upstream) connClosed(id int64) bool {
+	_, ok := u.closedIDs.Load(id)
+	return ok
 }
 
 func (u *upstream) port() int {
